@@ -186,7 +186,7 @@ Result execute(MVal& plan, Stats& st) {
     const Reg* g = nullptr;
     for (auto& x : registry()) if (name == x.name) g = &x;
     if (!g) { res.fail("harness:invalid-plan", "unknown scenario " + name); res.ok = true; res.cls = "invalid-plan"; return res; }
-    uint64_t only = plan.getu("n"), resume = plan.getu("resume_sub");
+    uint64_t only = plan.getu("n") ? plan.getu("n") : plan.getu("sub"), resume = plan.getu("resume_sub");
     uint64_t shape = fnv1a(plan_text(plan, "doc")) ^ fnv1a(plan_text(plan, "patch")) ^ fnv1a(plan.gets("lhs_kind") + "/" + plan.gets("rhs_kind") + "/" + plan.gets("op"));
     uint64_t h = fnv1a(name);
     uint64_t mism0 = ledger::size_mismatches(), badfree0 = ledger::bad_frees();
